@@ -16,6 +16,7 @@ setup)
   echo "scratch ready at $MT"
   ;;
 sync)
+  (cd $MT/repo && git checkout -q -- . && git clean -fdq && git checkout -q --detach $(git -C /repo rev-parse HEAD))
   rsync -a --delete --exclude target --exclude work --exclude .git --exclude replays --exclude evidence /verif/ $MT/verif/
   sed -i "s#/repo/#$MT/repo/#g" $MT/verif/harness/Cargo.toml
   sed -i "s#/verif/target#$MT/verif/target#" $MT/verif/harness/.cargo/config.toml
